@@ -1742,7 +1742,7 @@ func (c *immuClient) VerifiedSetReferenceAt(ctx context.Context, key []byte, ref
 		return nil, err
 	}
 
-	if verifiableTx.Tx.Header.Nentries != 1 {
+	if verifiableTx.Tx.Header.Nentries != 1 || len(verifiableTx.Tx.Entries) != 1 {
 		return nil, store.ErrCorruptedData
 	}
 
@@ -1909,7 +1909,7 @@ func (c *immuClient) VerifiedZAddAt(ctx context.Context, set []byte, score float
 		return nil, err
 	}
 
-	if vtx.Tx.Header.Nentries != 1 {
+	if vtx.Tx.Header.Nentries != 1 || len(vtx.Tx.Entries) != 1 {
 		return nil, store.ErrCorruptedData
 	}
 
